@@ -157,4 +157,18 @@ theorem c10_blind_open_is_source_open (f : Bytes) :
         (fun r uuid => [⟨uuid, r.1, r.2⟩]) :=
   gen_blindOpen f
 
+/-- **Reading the table of packs of a container pack follows the source**: `containerPackOpen` is
+    `ContainerPack::new` (`reader/container_pack.rs`) as translated on every run: the locators are read one
+    after the other from the recorded position, each pack region is cut out of the container with a bounds
+    check, in table order; the translated loop recurses on the pack count. -/
+theorem c10_container_pack_open_is_source_open (f : Bytes) (origin size : Nat) :
+    containerPackOpen f origin size =
+      (Generated.containerPackNew 36
+          (do let hd ← readBlock (slice f origin size) 0 60; PackHeader.decode hd)
+          (do let cb ← readBlock (slice f origin size) 64 60; ContainerHeader.decode cb)
+          (fun off => (readBlock (slice f origin size) off 32).bind fun lb => PackLocator.decode lb)
+          (fun pos sz => if pos + sz ≤ (slice f origin size).length then Outcome.ok (origin + pos, sz) else .err .format)).map'
+        (fun r => r.2.map toAt) :=
+  gen_containerPackOpen f origin size
+
 end Jubako
